@@ -2375,3 +2375,84 @@ def _nodeindex_traits(M, fr, n, a): return NotImplemented
 def _nodeindex_index(M, fr, n, a):
     if n.endswith('new'): return Agg('NodeIndex', [a[0]])
     return D(M, a[0]).f[0] if isinstance(a[0], Ref) else a[0].f[0]
+
+# ------------------------------------------------------------------ further container / option helpers
+@reg(r'^std::collections::(HashSet|BTreeSet)::remove$')
+def _hs_remove(M, fr, n, a):
+    hs = D(M, a[0])
+    for i, e in enumerate(hs.items):
+        if M.branch(val_eq(M, fr, e, a[1])): hs.items.pop(i); return True
+    return False
+@reg(r'^std::collections::(HashMap|BTreeMap)::retain$')
+def _hm_retain(M, fr, n, a):
+    hm = D(M, a[0]); keep = []
+    for e in hm.items:
+        if M.branch(M.call_closure(fr, a[1], [Ref(Cell(e.f[0])), Ref(Cell(e.f[1]))])): keep.append(e)
+    hm.items = keep; return UNIT
+@reg(r'^std::collections::(HashSet|BTreeSet)::retain$')
+def _hs_retain(M, fr, n, a):
+    hs = D(M, a[0]); keep = []
+    for e in hs.items:
+        if M.branch(M.call_closure(fr, a[1], [Ref(Cell(e))])): keep.append(e)
+    hs.items = keep; return UNIT
+@reg(r'^<std::collections::(HashMap|BTreeMap)<.*> as std::iter::Extend<.*>>::extend(::<.*>)?$')
+def _hm_extend(M, fr, n, a):
+    for kv in drain_all(M, fr, to_iter(M, fr, a[1])):
+        while isinstance(kv, Ref): kv = M.deref(kv)
+        _hm_insert(M, fr, 'std::collections::HashMap::insert', [a[0], kv.f[0], kv.f[1]])
+    return UNIT
+@reg(r'^<std::collections::(HashSet|BTreeSet)<.*> as std::iter::Extend<.*>>::extend(::<.*>)?$')
+def _hs_extend(M, fr, n, a):
+    for x in drain_all(M, fr, to_iter(M, fr, a[1])): _hs_insert(M, fr, 'std::collections::HashSet::insert', [a[0], x])
+    return UNIT
+@reg(r'^std::collections::(HashMap|BTreeMap)::(remove_entry|into_keys)$')
+def _hm_more(M, fr, n, a):
+    hm = D(M, a[0])
+    if n.endswith('into_keys'): return IterV(hash_order(M, [e.f[0] for e in hm.items], 'keys'))
+    i = hm_lookup(M, fr, hm, a[1])
+    if i < 0: return none()
+    e = hm.items.pop(i); return some(Agg('()', [e.f[0], e.f[1]]))
+@reg(r'^core::bool::<impl bool>::(then|then_some)(::<.*>)?$')
+def _bool_then(M, fr, n, a):
+    b = simp(a[0]) if is_sym(a[0]) else a[0]
+    if is_sym(b): b = M.branch(tobool(b))
+    if not b: return none()
+    return some(a[1]) if 'then_some' in n else some(M.call_closure(fr, a[1], []))
+@reg(r'^std::option::Option::(<.*>::)?(zip|xor|flatten)(::<.*>)?$')
+def _opt_more(M, fr, n, a):
+    op = re.search(r'(zip|xor|flatten)', n.rsplit('Option', 1)[1]).group(1)
+    x = a[0]
+    if op == 'flatten': return x.f[0] if opt_is_some(M, x) else none()
+    y = a[1]
+    sx = opt_is_some(M, x); sy = opt_is_some(M, y)
+    if op == 'zip': return some(Agg('()', [x.f[0], y.f[0]])) if sx and sy else none()
+    if sx and not sy: return x
+    if sy and not sx: return y
+    return none()
+@reg(r'^std::result::Result::(<.*>::)?(unwrap_or_default|is_ok_and|is_err_and)(::<.*>)?$')
+def _res_more(M, fr, n, a):
+    r = a[0]; d = simp(r.disc)
+    isok = (d == 0) if not is_sym(d) else M.branch(r.disc == 0)
+    if 'unwrap_or_default' in n:
+        if isok: return r.f[0]
+        raise Unsupported('Result::unwrap_or_default on Err (default of an unknown type)')
+    if 'is_ok_and' in n: return M.call_closure(fr, a[1], [r.f[0]]) if isok else False
+    return M.call_closure(fr, a[1], [r.f[0]]) if not isok else False
+def _sort_key(M, v):
+    while isinstance(v, Ref): v = M.deref(v)
+    if isinstance(v, Str):
+        c = v.conc()
+        if c is None: raise Unsupported('sort of symbolic text')
+        return (1, c.encode())
+    if isinstance(v, int) and not isinstance(v, bool): return (0, v)
+    if isinstance(v, Agg) and len(v.f) == 1: return _sort_key(M, v.f[0])
+    if isinstance(v, Agg) and v.name == '()': return (2, tuple(_sort_key(M, x) for x in v.f))
+    raise Unsupported('sort of %r' % (v,))
+@reg(r'^(std|alloc)::slice::<impl \[.*\]>::(sort|sort_by_key|sort_by_cached_key)(::<.*>)?$|^core::slice::<impl \[.*\]>::(sort_unstable|sort_unstable_by_key)(::<.*>)?$')
+def _slice_sort(M, fr, n, a):
+    v = D(M, a[0])
+    if not isinstance(v, VecV): raise Unsupported('sort of a non-vector')
+    if 'by_key' in n or 'cached_key' in n: keyed = [(_sort_key(M, M.call_closure(fr, a[1], [Ref(Cell(x))])), i, x) for i, x in enumerate(v.items)]
+    else: keyed = [(_sort_key(M, x), i, x) for i, x in enumerate(v.items)]
+    keyed.sort(key=lambda t: (t[0], t[1]))          # stable; for the unstable sorts equal keys are indistinguishable values of these types
+    v.items = [x for _, _, x in keyed]; return UNIT
